@@ -50,7 +50,12 @@ func TestC40(t *testing.T) {
 				"phases": phases, "aggs": []int{1, 1, 1, 1, 1}, "zero": false})
 		}
 		for i, nc := 0, vt.Pick(6, 60); i < nc; i++ { // the whole offline path, see c40_compact_test.go
-			yield(vt.Case{"gen": "compact", "cseed": rnd.Int63n(1 << 40), "aggs": []int{1, 1, 1, 1, 1}, "zero": false,
+			// judged in two parts: sum/min/max, and the counter aggregate on its own, whose
+			// timestamps in real downsampler output are not the count's (known finding, see c40kf)
+			cs := rnd.Int63n(1 << 40)
+			yield(vt.Case{"gen": "compact", "cseed": cs, "aggs": []int{1, 1, 1, 1, 0}, "judge": "sum-min-max", "zero": false,
+				"maxwin": vt.Pick(260, 400)})
+			yield(vt.Case{"gen": "compact", "cseed": cs, "aggs": []int{1, 0, 0, 0, 1}, "judge": "counter", "zero": false,
 				"maxwin": vt.Pick(260, 400)})
 		}
 		n := vt.Pick(150, 1500)
@@ -63,7 +68,7 @@ func TestC40(t *testing.T) {
 				"maxn": vt.Pick(400, 400)})
 		}
 	}
-	vt.Run(t, gen, func(vt.Case) string { return "" }, func(c vt.Case) vt.Event {
+	vt.Run(t, gen, c40kf, func(c vt.Case) vt.Event {
 		if vt.Str(c["gen"]) == "compact" {
 			return guarded(func() vt.Event { return observeC40Compact(c) }, vt.Event{"out": []any{}, "nin": 0})
 		}
@@ -256,4 +261,16 @@ func observeC40(c vt.Case) (ev vt.Event) {
 		ev["err"] = err.Error()
 	}
 	return ev
+}
+
+// c40kf: known-finding class, decided from the input alone. Real downsampler output starts every
+// counter aggregate with an extra sample at the first raw timestamp, so the counter aggregate is
+// deduplicated along its own timestamps and can end on another replica's last sample than the
+// count aggregate (KNOWN_FINDINGS.jsonl, C40 counter-own-timestamps). Only the counter judgement of
+// the compact-path cases is in the class; their sum/min/max judgement is a separate case.
+func c40kf(c vt.Case) string {
+	if vt.Str(c["gen"]) == "compact" && vt.Str(c["judge"]) == "counter" {
+		return "counter-own-timestamps"
+	}
+	return ""
 }
